@@ -298,9 +298,27 @@ func ruleValidateFirst(c *eng.Ctx) {
 func ruleDRMGate(c *eng.Ctx) {
 	const R = "R20.3-DRM-GATE"
 	c.Rule(R, "epubdoc init: parseContainer/parseOPF/loadChapters run only on the nil edge of checkForDRM; checkForDRM: rights.xml and unparsable/covering encryption.xml return ErrDRMProtected, and nil is returned only outside the scan loop", 6, 0)
-	initFn := c.P.Func("epubdoc.(*Reader).init")
 	drm := c.P.Func("epubdoc.checkForDRM")
-	if initFn == nil || drm == nil {
+	if drm == nil {
+		c.Undec(R, "epubdoc.checkForDRM", token.NoPos, "anchor not found")
+		return
+	}
+	// the initialiser: the anchored method, or (renamed, turned into a plain function) the function of the package
+	// that calls the DRM check
+	initFn := c.P.FuncExact("epubdoc.(*Reader).init")
+	if initFn == nil {
+		for _, f := range c.P.ModuleFuncs() {
+			if f.Pkg != drm.Pkg || f == drm {
+				continue
+			}
+			for _, ci := range eng.Calls(f, false, func(string, ssa.CallInstruction) bool { return true }) {
+				if ci.Common().StaticCallee() == drm && initFn == nil {
+					initFn = f
+				}
+			}
+		}
+	}
+	if initFn == nil {
 		c.Undec(R, "epubdoc.(*Reader).init", token.NoPos, "anchor not found")
 		return
 	}
@@ -314,7 +332,12 @@ func ruleDRMGate(c *eng.Ctx) {
 		c.Viol(R, "epubdoc.(*Reader).init#drm", initFn.Pos(), "init does not call checkForDRM")
 	} else {
 		for _, n := range []string{"epubdoc.parseContainer", "epubdoc.parseOPF", "epubdoc.(*Reader).loadChapters"} {
-			calls := eng.CallsNamed(initFn, false, n)
+			// by role: a function or method of the package with that base name
+			base := n[strings.LastIndex(n, ".")+1:]
+			calls := eng.Calls(initFn, false, func(_ string, ci ssa.CallInstruction) bool {
+				cal := ci.Common().StaticCallee()
+				return cal != nil && cal.Pkg == drm.Pkg && cal.Name() == base
+			})
 			ok := len(calls) > 0
 			for _, cc := range calls {
 				if !eng.GuardedBy(initFn, cc.Block(), errIsNilFact(dcall)) {
